@@ -14,7 +14,8 @@ warnings.simplefilter('ignore', DeprecationWarning)
 
 import tapescript  # noqa: E402
 from tapescript import functions as F, parsing as P, tools as T, classes as C, errors as E  # noqa: E402
-from tapescript import AMHL as A  # noqa: E402
+import importlib  # noqa: E402
+A = importlib.import_module('tapescript.AMHL')
 
 assert os.path.realpath(os.path.dirname(os.path.dirname(tapescript.__file__))) == os.path.realpath(REPO), \
     'tapescript imported from %s, expected %s' % (tapescript.__file__, REPO)
@@ -66,9 +67,15 @@ def pin_random(seed=b'vt'):
     F.token_bytes = r
     if hasattr(A, 'token_bytes'):
         A.token_bytes = r
-    if hasattr(T, 'token_bytes'):
-        T.token_bytes = r
     return r
+
+
+def unpin_random():
+    F.token_bytes = _ORIG_TOKEN
+    if hasattr(A, 'token_bytes'):
+        A.token_bytes = _ORIG_TOKEN
+    if hasattr(T, 'token_bytes'):
+        pass
 
 
 _REG_NAMES = ('opcodes', 'opcodes_inverse', 'nopcodes', 'nopcodes_inverse',
